@@ -58,7 +58,14 @@ def check_render(sess, op):
     g = w.graphs[-1]
     heat = op["op"] == "make_hdiag"
     grouping = op.get("group", True)
-    cfg = _diag_config(sess, op.get("config")) or w.D.get_conf()
+    import copy
+    from . import world as W
+
+    # the library's defaults are what the documentation says, every time
+    now = w.D.get_conf()
+    if now != W.PRISTINE_CONF:
+        sess.fail("C19", "default-configuration-unchanged", "get_conf() no longer returns the default configuration: %s" % _first_conf_diff(W.PRISTINE_CONF, now))
+    cfg = _diag_config(sess, op.get("config")) or copy.deepcopy(W.PRISTINE_CONF)
     sig = "dot-special-name" if any(special_name(n) for n in m.order) else ""
 
     def fail(clause, detail):
@@ -168,6 +175,14 @@ def check_render(sess, op):
         sess.nontrivial.add(("render", m.shape(), tuple(sorted(groups)) if grouping else (), tuple(sorted((ov.get("node") or {}).keys())) != (), heat))
     if op.get("real_dot"):
         _real_dot(sess, m, text, heat, grouping, fail)
+
+
+def _first_conf_diff(a, b, path=""):
+    if isinstance(a, dict) and isinstance(b, dict):
+        for k in sorted(set(a) | set(b)):
+            if a.get(k) != b.get(k):
+                return _first_conf_diff(a.get(k), b.get(k), path + "/" + str(k))
+    return "%s: %r -> %r" % (path, a, b)
 
 
 def _hex(s):
